@@ -503,6 +503,7 @@ def run_check(prop_mod, tier, verif_seed, nruns=None, workers=None, wall_cap=Non
     # triage
     violations = []
     known_hits = []
+    minimise_spent = [0.0]
     replay_dir = os.path.join(VERIF_DIR, 'replays', prop_mod.ID)
     for key in sorted(groups):
         arm_name, cls, signature, _kid = key
@@ -514,10 +515,16 @@ def run_check(prop_mod, tier, verif_seed, nruns=None, workers=None, wall_cap=Non
         if k is not None and not min_first:
             known_hits.append((k, key, len(entries), viol))
             continue
+        if k is None and len(violations) >= 30:
+            continue        # 30 replay files are enough to report a tree that is broken in many ways
         # minimise + write replay
         budget = minimise_budget if minimise_budget is not None else cfg.get('minimise_budget', 45.0)
         if k is not None:
             budget = min(budget, cfg.get('known_minimise_budget', 8.0))
+        elif minimise_spent[0] > cfg.get('total_minimise_budget', 6 * budget):
+            # a change that breaks many things at once: the remaining groups are reported (and replayed) unminimised
+            budget = 0
+        t_min = time.time()
         mini = case
         mexec = 0
         if budget > 0 and case is not None and 'wall-clock' not in viol.get('features', ()):
@@ -527,6 +534,8 @@ def run_check(prop_mod, tier, verif_seed, nruns=None, workers=None, wall_cap=Non
             except Exception:
                 mini = case
             mexec = m.executions
+        if k is None:
+            minimise_spent[0] += time.time() - t_min
         wall_clock = 'wall-clock' in viol.get('features', ())
         st, final = fork_call(lambda: execute(arm, mini), timeout=30.0 if wall_clock else 120.0)
         fv = same_violation(final, viol) if st == 'ok' else None
